@@ -52,7 +52,8 @@ type Plan struct {
 	AgeHours  int         `json:"age_hours,omitempty"` // simulated time that passes between the earlier Puts and the target Put
 	Target    PutStep     `json:"target"`
 	Via       string      `json:"via"` // bytes | reader
-	NoVerify  bool        `json:"no_verify,omitempty"` // the reader goes in through PutNoVerify
+	NoVerify  bool        `json:"no_verify,omitempty"`
+	SameSubdir bool       `json:"same_subdir,omitempty"` // the target's output file lives in the cache subdirectory that holds another id's index entry // the reader goes in through PutNoVerify
 	Chunk     int         `json:"chunk"`
 	All       bool        `json:"all,omitempty"` // enumerate the whole fault space of this shape instead of the single Fault
 	Fault     FaultSpec   `json:"fault"`
@@ -91,6 +92,11 @@ func genPlan(t *rapid.T, tier string) any {
 	p.Via = rapid.SampledFrom([]string{"bytes", "reader", "reader"}).Draw(t, "via")
 	p.Chunk = rapid.SampledFrom([]int{1, 100, 4096, 1 << 20}).Draw(t, "chunk")
 	p.NoVerify = rapid.IntRange(0, 3).Draw(t, "noverify") == 0
+	if rapid.IntRange(0, 5).Draw(t, "samesubdir") == 0 {
+		// real caches hold thousands of files per subdirectory: the output being written has neighbours
+		p.SameSubdir = true
+		p.Pre = append(p.Pre, PutStep{(p.Target.ID + 1) % nIDs, rapid.IntRange(0, nc-1).Draw(t, "neighbourcontent")})
+	}
 	if tier == "thorough" && rapid.IntRange(0, 9).Draw(t, "all") == 0 {
 		p.All = true
 	}
@@ -131,6 +137,7 @@ type env struct {
 	before   []int  // content stored under each id before the target Put (-1: none)
 	readable []bool // id was readable exactly (GetBytes) just before the target Put
 	proc     int
+	lastProc int // the simulated process of the latest target Put
 }
 
 // verifyAll applies the safety clauses of the statement to every id.
@@ -178,21 +185,27 @@ type attempt struct {
 	opFault *simos.Fault
 	reader  *cachekit.ChunkReader
 	label   string
+	proc    int                         // >0: run in this (existing) simulated process instead of a fresh one
+	remake  func() *cachekit.ChunkReader // a fresh source reader with the same fault, for repeating the attempt
 }
 
 // runPut performs the target Put in a fresh simulated process, with the given
 // fault armed. It reports (returned error, halted).
 func (e *env) runPut(a attempt) (err error, halted bool, finished bool) {
 	p := e.p
-	e.proc++
-	proc := e.proc
+	proc := a.proc
+	if proc == 0 {
+		e.proc++
+		proc = e.proc
+	}
+	e.lastProc = proc
 	if a.opFault != nil {
 		f := *a.opFault
 		f.Proc = proc
 		simos.Arm([]simos.Fault{f})
 	}
-	doneW, doneR := false, !p.Reader || a.label == "dry"
-	doneC := !p.Companion || a.label == "dry"
+	doneW, doneR := false, !p.Reader || a.label == "dry" || a.proc > 0
+	doneC := !p.Companion || a.label == "dry" || a.proc > 0
 	if !doneC {
 		e.proc++
 		cp := e.proc
@@ -313,6 +326,18 @@ func run(t *testing.T, plan any, keep bool) *simcheck.Outcome {
 	for i, sz := range p.Sizes {
 		e.contents = append(e.contents, cachekit.Content(i+1, sz))
 		e.outIDs = append(e.outIDs, cachekit.OutputID(e.contents[i]))
+	}
+	if tc := p.Target.Content; p.SameSubdir && len(e.contents[tc]) > 0 && len(e.contents[tc]) <= 5000 {
+		// pick target bytes whose output id starts with the byte the neighbouring id's index entry is filed under
+		want := cachekit.ActionID((p.Target.ID + 1) % nIDs)[0]
+		for seed := 7000; seed < 7000+20000; seed++ {
+			c := cachekit.Content(seed, len(e.contents[tc]))
+			if o := cachekit.OutputID(c); o[0] == want {
+				e.contents[tc], e.outIDs[tc] = c, o
+				out.Count("shape_output_shares_subdirectory_with_another_entry", 1)
+				break
+			}
+		}
 	}
 	e.before = []int{-1, -1, -1}
 	e.readable = make([]bool, nIDs)
@@ -436,7 +461,8 @@ func run(t *testing.T, plan any, keep bool) *simcheck.Outcome {
 					for pass := 1; pass <= 2; pass++ {
 						for call := 0; call < max(m, 1) && call < 6; call++ {
 							spec := FaultSpec{Kind: "reader", RKind: rk, Pass: pass, Call: call, Off: p.Fault.Off + 7*call}
-							atts = append(atts, attempt{reader: e.reader(&spec, m), label: fmt.Sprintf("reader %s pass %d call %d", rk, pass, call)})
+							sp := spec
+							atts = append(atts, attempt{reader: e.reader(&sp, m), label: fmt.Sprintf("reader %s pass %d call %d", rk, pass, call), remake: func() *cachekit.ChunkReader { return e.reader(&sp, m) }})
 							if rk != "read-error" && rk != "flip" {
 								break
 							}
@@ -447,7 +473,7 @@ func run(t *testing.T, plan any, keep bool) *simcheck.Outcome {
 		} else if p.Fault.Kind == "op" {
 			atts = append(atts, mkOp(p.Fault.K, p.Fault.Action, p.Fault.Errno, p.Fault.Frac))
 		} else if p.Fault.Kind == "reader" {
-			atts = append(atts, attempt{reader: e.reader(&p.Fault, m), label: fmt.Sprintf("reader %s pass %d", p.Fault.RKind, p.Fault.Pass)})
+			atts = append(atts, attempt{reader: e.reader(&p.Fault, m), label: fmt.Sprintf("reader %s pass %d", p.Fault.RKind, p.Fault.Pass), remake: func() *cachekit.ChunkReader { return e.reader(&p.Fault, m) }})
 		}
 
 		for _, a := range atts {
@@ -473,6 +499,25 @@ func run(t *testing.T, plan any, keep bool) *simcheck.Outcome {
 				out.Count("outcome_put_error", 1)
 			} else {
 				out.Count("outcome_put_returned_nil", 1)
+			}
+			// A process that keeps going after failed Puts must not pile up resources: the same failing Put
+			// twice more in that process leaves no more descriptors open than the first failure did.
+			if perr != nil && !halted && !p.Companion && !p.Reader && (a.reader == nil || a.remake != nil) {
+				proc := e.lastProc
+				open1 := simos.OpenCount(proc)
+				for rep := 0; rep < 2; rep++ {
+					b := attempt{opFault: a.opFault, label: a.label + " (repeated)", proc: proc}
+					if a.remake != nil {
+						b.reader = a.remake()
+					}
+					if _, h2, _ := e.runPut(b); h2 {
+						break
+					}
+				}
+				if open3 := simos.OpenCount(proc); open3 > open1 {
+					out.Violate("descriptor-leak", "after %s: the process held %d open descriptors after the first failed Put and %d after two more identical failures: every failed Put leaks", a.label, open1, open3)
+				}
+				out.Count("failed_puts_repeated_in_one_process", 1)
 			}
 			// "restart": a fresh handle on the directory, in the surviving process
 			c2, err := cache.Open(dir)
